@@ -1,7 +1,7 @@
 """C15 -- the same text gives the same result however it is supplied."""
 import io
 from vfy.lemma import lemma, P, give_up
-from vfy.lemmas.common import S, cp_md, all_ok, all_in, ks, ALPH14, by, fixed
+from vfy.lemmas.common import S, cp_md, all_ok, all_in, ks, ALPH14, by, fixed, cell, cells
 from mistletoe import block_token as bt
 
 ASSUMPTIONS = ["C15: text-mode file objects are modelled by their contract on the property's domain (only '\\n' terminators): "
@@ -37,13 +37,13 @@ def split_nl(s):
     return list(FakeFile(s))
 
 
-@lemma('D1.normalisation', 'C15', quick=ks(4)[1:], thorough=ks(5)[1:], timeout=600,
+@lemma('D1.normalisation', 'C15', quick=ks(3)[1:], thorough=ks(3)[1:] + cells('c1cell', ['\n', ' \t'], [{'k': 4, 'timeout': 3000}, {'k': 5, 'timeout': 6000}]), timeout=600,
        stubs=['block_token.tokenize -> recorder'],
        covers=['block_token.py:Document.__init__'],
        note="the line list that reaches the block tokenizer is the same for s, s+'\\n', the list of lines with and without final newline, and a file object; all s over Σmd (incl. '\\n', tab) of each length")
 def d1_norm(c1: int, c2: int, c3: int, c4: int, c5: int) -> bool:
     """
-    pre: all_ok(cp_md, P('k'), c1, c2, c3, c4, c5)
+    pre: cell(c1, 'c1cell') and all_ok(cp_md, P('k'), c1, c2, c3, c4, c5)
     post: _
     """
     s = S(P('k'), c1, c2, c3, c4, c5)
@@ -96,7 +96,7 @@ class _Out:
        note='cli.main([f1, f2]) with two files: the first has symbolic content over the 14-character alphabet, the second is concrete')
 def d2_cli(c1: int, c2: int, c3: int) -> bool:
     """
-    pre: all_in(ALPH14, P('k'), c1, c2, c3) and fixed(c1, 'c1')
+    pre: fixed(c1, 'c1') and all_in(ALPH14, P('k'), c1, c2, c3)
     post: _
     """
     import builtins
@@ -131,7 +131,7 @@ def d2_cli(c1: int, c2: int, c3: int) -> bool:
        note='whole pipeline: outputs of the three input forms agree (HtmlRenderer)')
 def d3_pipeline(c1: int, c2: int, c3: int) -> bool:
     """
-    pre: (all_ok(cp_md, P('k'), c1, c2, c3) if P('sigma') else all_in(ALPH14, P('k'), c1, c2, c3)) and fixed(c1, 'c1')
+    pre: fixed(c1, 'c1') and (all_ok(cp_md, P('k'), c1, c2, c3) if P('sigma') else all_in(ALPH14, P('k'), c1, c2, c3))
     post: _
     """
     import mistletoe
